@@ -185,8 +185,8 @@ inductive Out where
   | cnt (n : Nat) (all : Bool)
   | keys (ks : List Bytes)
   | ents (es : List (Bytes × Option Bytes))
-  | dump (es : List (Bytes × Option Bytes)) (kids : List (Bytes × List (Bytes × Option Bytes)))
-      (root : Bytes)
+  | dump (es : List (Bytes × Option Bytes))
+      (kids : List (Bytes × Option (List (Bytes × Option Bytes)))) (root : Bytes)
   | many (l : List Out)
   | const (b : Bytes)
   | bad
@@ -455,7 +455,7 @@ def snapReads (x y : UInt8) (sep : Bool) : List Op :=
   let kids : List Bytes := if sep then [[0x4b, x], [0x4b, x, y], [0x4b, y]] else [[x], [x, y], [y]]
   let inKeys : List Bytes := [[], [x], [x, y], [y]]
   mainKeys.flatMap (fun k => [Op.get k, Op.next k]) ++ [Op.ents] ++
-    kids.flatMap (fun c => [Op.ckeys c [], Op.croot c] ++
+    kids.flatMap (fun c => [Op.ckeys c []] ++
       inKeys.flatMap (fun k => [Op.cget c k, Op.cnext c k]))
 
 /-- read-only operations -/
@@ -474,7 +474,9 @@ end generic
 
 /-- dump of the committed trie, per backend -/
 structure Dumper (β : Type) where
-  kids : β → List (Bytes × List (Bytes × Option Bytes))
+  /-- per child-root entry of the main trie (ascending): child key and the entries of the child
+      found by `GetChild` (`none` = no object) -/
+  kids : β → List (Bytes × Option (List (Bytes × Option Bytes)))
 
 section generic2
 variable {β τ : Type} (B : Backend β τ) (D : Dumper β) (ord : Diff → ApplyOrder)
